@@ -369,5 +369,6 @@ class ABTest(Selector):
         eligible = [s for s in self._slots if s.eligible(self._total)]
         if not eligible:
             raise RuntimeError('No eligible slots')
-        # choose the eligible slot lagging most behind its target share (first-eligible would starve the tail slots)
-        return max(eligible, key=lambda s: s.target * self._total - s.count).hit(registry)
+        # choose the eligible slot whose next hit is due first (earliest deadline): unlike first-eligible this does not
+        # starve the tail slots and - unlike largest-deficit - it stays within the share bound however ties get resolved
+        return min(eligible, key=lambda s: (s.count + 1) / s.target).hit(registry)
